@@ -116,8 +116,14 @@ def rule_2(ctx):
     ctx.expect('.lower()' in pred and "'.gz'" in pred and "'.gzip'" in pred and 'splitext' in pred, cw[3],
                'predicate = lower-cased extension in {.gzip, .gz}',
                f'compression is chosen by `{pred}`, not by the lower-cased file extension being .gz/.gzip')
-    modes_w = [ast.unparse(c.args[1]) for c in flow.calls_in(w) if isinstance(c.func, ast.Name) and c.func.id == 'file_open' and len(c.args) > 1]
-    modes_r = [ast.unparse(c.args[1]) for c in flow.calls_in(r) if isinstance(c.func, ast.Name) and c.func.id == 'file_open' and len(c.args) > 1]
+    def opener_name(fn, choice):
+        st = flow.stmt_of(choice[3])
+        if isinstance(st, ast.Assign) and isinstance(st.targets[0], ast.Name):
+            return st.targets[0].id
+        return None
+    ow, orr = opener_name(w, cw), opener_name(r, cr)
+    modes_w = [ast.unparse(c.args[1]) for c in flow.calls_in(w) if isinstance(c.func, ast.Name) and c.func.id == ow and len(c.args) > 1]
+    modes_r = [ast.unparse(c.args[1]) for c in flow.calls_in(r) if isinstance(c.func, ast.Name) and c.func.id == orr and len(c.args) > 1]
     ctx.expect(modes_w == ["'wb'"] and modes_r in (["'rb'"], ['"rb"']), w, 'binary modes wb / rb', f'open modes are {modes_w} / {modes_r}')
     ctx.floor(4, 'compression agreement facts')
 
